@@ -16,8 +16,43 @@ pub fn crc32c(data: &[u8]) -> u32 {
     !crc
 }
 
+/// Table-driven variant (table derived from the bitwise definition above at first use);
+/// used where millions of pages are checked. Cross-checked against `crc32c` in the tests.
+pub fn crc32c_fast(data: &[u8]) -> u32 {
+    static TABLE: std::sync::OnceLock<[u32; 256]> = std::sync::OnceLock::new();
+    let t = TABLE.get_or_init(|| {
+        let mut t = [0u32; 256];
+        for (i, e) in t.iter_mut().enumerate() {
+            // CRC register after feeding the single byte i into an all-zero register, no init/xorout
+            let mut crc = i as u32;
+            for _ in 0..8 {
+                crc = if crc & 1 != 0 { (crc >> 1) ^ 0x82F6_3B78 } else { crc >> 1 };
+            }
+            *e = crc;
+        }
+        t
+    });
+    let mut crc: u32 = 0xFFFF_FFFF;
+    for &b in data {
+        crc = t[((crc ^ b as u32) & 0xFF) as usize] ^ (crc >> 8);
+    }
+    !crc
+}
+
 #[cfg(test)]
 mod tests {
+    #[test]
+    fn fast_equals_bitwise() {
+        let mut data = Vec::new();
+        let mut x = 12345u32;
+        for n in 0..3000 {
+            x = x.wrapping_mul(1664525).wrapping_add(1013904223);
+            data.push((x >> 24) as u8);
+            if n % 97 == 0 {
+                assert_eq!(super::crc32c(&data), super::crc32c_fast(&data));
+            }
+        }
+    }
     #[test]
     fn check_value() {
         assert_eq!(super::crc32c(b"123456789"), 0xE306_9283);
